@@ -60,11 +60,25 @@ func c06r8(c *Ctx) {
 		return
 	}
 	n := 0
+	var roots []*ssa.Function
 	for _, name := range []string{"(*Authenticator).handleSessionResumption", "(*Authenticator).resumeSession"} {
-		fn := c.needFn(rule, "security", name)
-		if fn == nil {
-			continue
+		if fn := c.needFn(rule, "security", name); fn != nil {
+			roots = append(roots, fn)
 		}
+	}
+	// the resumption functions and the same-package helpers they call (a restore step may live in a helper)
+	var scope []*ssa.Function
+	rootSet := fnSet(roots...)
+	for f := range c.reachableFns(roots, false) {
+		// helpers that serve the resumption functions only (the generic key setup shared with the full
+		// handshake is judged by C03/C04/C10)
+		if fnPkg(f) == fnPkg(roots[0]) && (rootSet[f] || c.onlyReachableFrom(f, rootSet)) {
+			scope = append(scope, f)
+		}
+	}
+	sort.Slice(scope, func(i, j int) bool { return fnName(scope[i]) < fnName(scope[j]) })
+	for _, fn := range scope {
+		fn := fn
 		fromPeerAd := func(v ssa.Value) bool {
 			return mentions(v, func(x ssa.Value) bool {
 				// any method call on a *classad.ClassAd value other than entry.Policy(): the peer's ad
@@ -76,15 +90,39 @@ func c06r8(c *Ctx) {
 				if !types.Identical(recv.Type(), adType) {
 					return false
 				}
-				for _, o := range origins(fn, recv) {
-					if oc, _ := originCall(o); oc != nil {
-						if co := calleeObj(oc); co != nil && co.Name() == "Policy" {
-							continue
+				var fromPolicy func(f *ssa.Function, v ssa.Value, d int) bool
+				fromPolicy = func(f *ssa.Function, v ssa.Value, d int) bool {
+					for _, o := range origins(f, v) {
+						if oc, _ := originCall(o); oc != nil {
+							if co := calleeObj(oc); co != nil && co.Name() == "Policy" {
+								continue
+							}
 						}
+						if par, isPar := o.(*ssa.Parameter); isPar && d > 0 {
+							// helper parameter: every call site in scope must pass a cached policy
+							idx, nSites, all := -1, 0, true
+							for i, q := range f.Params {
+								if q == par {
+									idx = i
+								}
+							}
+							for _, g := range scope {
+								for _, cs := range callsIn(g, f.Object()) {
+									nSites++
+									if idx < 0 || idx >= len(cs.Common().Args) || !fromPolicy(g, cs.Common().Args[idx], d-1) {
+										all = false
+									}
+								}
+							}
+							if all && nSites > 0 {
+								continue
+							}
+						}
+						return false
 					}
 					return true
 				}
-				return false
+				return !fromPolicy(fn, recv, 2)
 			})
 		}
 		fromEntryKey := func(v ssa.Value) bool {
@@ -216,74 +254,130 @@ func c15r6(c *Ctx) {
 	fTotal := c.needField(rule, "stream", "Stream", "totalMsgBytes")
 	newStream := c.LookupFn("stream", "NewStream")
 	imp := c.LookupFn("stream", "NewStreamWithCryptoState")
+	isZeroStore := func(f *types.Var) func(ssa.Instruction) bool {
+		return func(in ssa.Instruction) bool {
+			st, ok := in.(*ssa.Store)
+			if !ok {
+				return false
+			}
+			fa, ok := st.Addr.(*ssa.FieldAddr)
+			if !ok || fieldOfAddr(fa) != f {
+				return false
+			}
+			k, ok := st.Val.(*ssa.Const)
+			if !ok {
+				return false
+			}
+			if k.Value == nil {
+				return true
+			}
+			if b, ok := constBool(k); ok && !b {
+				return true
+			}
+			if i, ok := constInt(k); ok && i == 0 {
+				return true
+			}
+			return false
+		}
+	}
+	// guard edges per allowed function
+	guardEdges := func(fn *ssa.Function, after string) ([]Edge, bool) {
+		switch after {
+		case "":
+			return nil, false // unconditional reset allowed
+		case "!":
+			var es []Edge
+			for _, b := range fn.Blocks {
+				ifi := blockIf(b)
+				if ifi == nil {
+					continue
+				}
+				a := condAtom(ifi.Cond)
+				if fBytesRead == nil || fTotal == nil || a.Neg {
+					continue
+				}
+				if a.Op == token.LSS && readsField(a.X, fBytesRead) && readsField(a.Y, fTotal) {
+					es = append(es, Edge{b, 1})
+				}
+				if a.Op == token.GEQ && readsField(a.X, fBytesRead) && readsField(a.Y, fTotal) {
+					es = append(es, Edge{b, 0})
+				}
+			}
+			return es, true
+		default:
+			g := c.needFn(rule, "stream", after)
+			if g == nil {
+				return nil, true
+			}
+			var es []Edge
+			for _, cs := range callsIn(fn, g.Object()) {
+				succ, _, _ := callErrEdges(fn, cs.Value())
+				es = append(es, succ...)
+			}
+			return es, true
+		}
+	}
 	n := 0
 	for _, fname := range []string{"inMessage", "bytesRead", "receiveBuffer", "totalMsgBytes", "sendBuffer", "sendEOM"} {
 		f := c.needField(rule, "stream", "Stream", fname)
 		if f == nil {
 			continue
 		}
+		hit := isZeroStore(f)
+		allowed := map[*ssa.Function]bool{}
+		for _, al := range table[fname] {
+			if g := c.LookupFn("stream", al.fn); g != nil {
+				allowed[g] = true
+			}
+		}
+		// (1) every resetting function is an allowed one or a helper only they reach
 		for _, fn := range c.ModFns {
-			if fn == newStream || fn == imp {
+			if fn == newStream || fn == imp || !containsHit(fn, hit) {
 				continue
 			}
-			for _, st := range storesToField(fn, f) {
-				isZero := false
-				if k, ok := st.Val.(*ssa.Const); ok {
-					if k.Value == nil {
-						isZero = true // nil slice
-					} else if b, ok := constBool(k); ok && !b {
-						isZero = true
-					} else if i, ok := constInt(k); ok && i == 0 {
-						isZero = true
+			t := topFn(fn)
+			construct := "reset:Stream." + fname + "@" + fnName(t)
+			n++
+			if !allowed[t] && !c.onlyReachableFrom(t, allowed) {
+				var pos token.Pos
+				allInstrs(fn, func(_ *ssa.BasicBlock, _ int, in ssa.Instruction) {
+					if hit(in) {
+						pos = in.Pos()
 					}
+				})
+				c.Violate(rule, construct, "resets Stream."+fname+" outside the completion points of the message-buffer API: evidence of a partially sent/consumed message is erased, so ExportCryptoState would no longer refuse", pos)
+			} else if !allowed[t] {
+				c.Ok(rule, construct, "helper reachable only from the completion points", fn.Pos())
+			}
+		}
+		// (2) in each allowed function the reset (there or in its helpers) lies behind the completion edge
+		for _, al := range table[fname] {
+			fn := c.LookupFn("stream", al.fn)
+			if fn == nil {
+				continue
+			}
+			construct := "reset:Stream." + fname + "@" + fnName(fn)
+			es, guarded := guardEdges(fn, al.after)
+			if !guarded {
+				c.Ok(rule, construct, "reset at a message start", fn.Pos())
+				continue
+			}
+			guards := func(g *ssa.Function) []Edge {
+				if g == fn {
+					return es
 				}
-				if !isZero {
-					continue
-				}
-				n++
-				construct := "reset:Stream." + fname + "@" + fnName(topFn(fn))
-				var al *allow
-				for i := range table[fname] {
-					if g := c.LookupFn("stream", table[fname][i].fn); g != nil && g == fn {
-						al = &table[fname][i]
-					}
-				}
-				if al == nil {
-					c.Violate(rule, construct, "resets Stream."+fname+" outside the completion points of the message-buffer API: evidence of a partially sent/consumed message is erased, so ExportCryptoState would no longer refuse", st.Pos())
-					continue
-				}
-				switch al.after {
-				case "":
-					c.Ok(rule, construct, "reset at a message start", st.Pos())
-				case "!":
-					// dominated by the false edge of bytesRead < totalMsgBytes
-					cuts := newCuts()
-					for _, b := range fn.Blocks {
-						ifi := blockIf(b)
-						if ifi == nil {
-							continue
-						}
-						a := condAtom(ifi.Cond)
-						if a.Op == token.LSS && !a.Neg && fBytesRead != nil && fTotal != nil && readsField(a.X, fBytesRead) && readsField(a.Y, fTotal) {
-							cuts.AddEdges(Edge{b, 1})
-						}
-						if a.Op == token.GEQ && !a.Neg && fBytesRead != nil && fTotal != nil && readsField(a.X, fBytesRead) && readsField(a.Y, fTotal) {
-							cuts.AddEdges(Edge{b, 0})
-						}
-					}
-					c.mustPassInstr(rule, construct, fn, st, cuts, "the message-fully-consumed edge (bytesRead >= totalMsgBytes)")
-				default:
-					g := c.needFn(rule, "stream", al.after)
-					if g == nil {
-						continue
-					}
-					cuts := newCuts()
-					for _, cs := range callsIn(fn, g.Object()) {
-						succ, _, _ := callErrEdges(fn, cs.Value())
-						cuts.AddEdges(succ...)
-					}
-					c.mustPassInstr(rule, construct, fn, st, cuts, "a nil-error "+g.Name())
-				}
+				return nil
+			}
+			what := "the message-fully-consumed edge (bytesRead >= totalMsgBytes)"
+			if al.after != "!" {
+				what = "a nil-error " + al.after
+			}
+			bad := c.unguardedDeep(fn, hit, guards)
+			for _, w := range bad {
+				c.Violate(rule, construct, "Stream."+fname+" is reset on a path that has not passed "+what, w.In.Pos(), c.describePath(w.Path)...)
+			}
+			if len(bad) == 0 {
+				c.Ok(rule, construct, "every reset lies behind "+what, fn.Pos())
 			}
 		}
 	}
@@ -405,10 +499,38 @@ func c15r8(c *Ctx) {
 		return
 	}
 	pv, _ := constantInt(partial)
-	// markStores: stores of a bool computed by comparing src-derived value with EndFlagPartial into a Stream field
-	markStores := func(fn *ssa.Function, isSrc func(ssa.Value) bool) map[*types.Var][]ssa.Instruction {
+	// markStores: sites in fn that store a bool computed by comparing a src-derived value with EndFlagPartial
+	// into a Stream field: a direct store, or a call to a same-module helper that makes such a store from one of
+	// its parameters on every path, with a src-derived argument in that position.
+	var markStoresD func(fn *ssa.Function, isSrc func(ssa.Value) bool, depth int) map[*types.Var][]ssa.Instruction
+	markStoresD = func(fn *ssa.Function, isSrc func(ssa.Value) bool, depth int) map[*types.Var][]ssa.Instruction {
 		out := map[*types.Var][]ssa.Instruction{}
 		allInstrs(fn, func(_ *ssa.BasicBlock, _ int, in ssa.Instruction) {
+			if call, ok := in.(*ssa.Call); ok && depth > 0 {
+				g := calleeFn(call)
+				if !isModuleFn(g) || g == fn {
+					return
+				}
+				for i, par := range g.Params {
+					if i >= len(call.Call.Args) || !mentions(call.Call.Args[i], isSrc) {
+						continue
+					}
+					inner := markStoresD(g, func(v ssa.Value) bool { return v == ssa.Value(par) }, depth-1)
+					for f, sts := range inner {
+						// the helper must make the store on every path to every return
+						all := true
+						for _, r := range c.returnsOf(g) {
+							if findPath(entryPoint(g), r.Target(), newCuts().AddInstrs(sts...)) != nil {
+								all = false
+							}
+						}
+						if all {
+							out[f] = append(out[f], in)
+						}
+					}
+				}
+				return
+			}
 			st, ok := in.(*ssa.Store)
 			if !ok {
 				return
@@ -436,6 +558,9 @@ func c15r8(c *Ctx) {
 			out[fieldOfAddr(fa)] = append(out[fieldOfAddr(fa)], st)
 		})
 		return out
+	}
+	markStores := func(fn *ssa.Function, isSrc func(ssa.Value) bool) map[*types.Var][]ssa.Instruction {
+		return markStoresD(fn, isSrc, 2)
 	}
 	var marks []*types.Var
 	allow := map[*types.Var]map[*ssa.Function]bool{}
@@ -466,12 +591,7 @@ func c15r8(c *Ctx) {
 			if i, isC := constInt(ia.Index); !isC || i != 0 {
 				return false
 			}
-			for _, rc := range callsIn(fn, rwc.Object()) {
-				if memRoot(rc.Common().Args[2]) == memRoot(ia.X) {
-					return true
-				}
-			}
-			return false
+			return c.filledBy(fn, ia.X, rwc.Object(), 2, 3)
 		}
 		rm := markStores(fn, isFlagByte)
 		if len(rm) == 0 {
@@ -514,7 +634,7 @@ func c15r8(c *Ctx) {
 				poss[a.Fn] = a.Instr.Pos()
 			}
 		}
-		c.whoMay(rule, "write Stream."+f.Name(), wr, poss, allow[f])
+		c.whoMayDeep(rule, "write Stream."+f.Name(), wr, poss, allow[f])
 	}
 	c.MinCount(rule, "in-flight marks (send + two receivers)", n, 3)
 }
@@ -531,15 +651,25 @@ func c15r9(c *Ctx) {
 	if dec == nil || flag == nil || open == nil {
 		return
 	}
-	cuts := newCuts()
+	var succ []Edge
 	for _, cs := range callsIn(dec, open) {
-		succ, _, _ := callErrEdges(dec, cs.Value())
-		cuts.AddEdges(succ...)
+		se, _, _ := callErrEdges(dec, cs.Value())
+		succ = append(succ, se...)
 	}
-	n := 0
-	for _, st := range storesToField(dec, flag) {
-		n++
-		c.mustPassInstr(rule, fnName(dec)+"#finishedRecvAAD-store", dec, st, cuts, "a nil-error Open")
+	guards := func(f *ssa.Function) []Edge {
+		if f == dec {
+			return succ
+		}
+		return nil
+	}
+	a, m := c.deepSites(dec, storeHit(flag))
+	n := len(a) + len(m)
+	bad := c.unguardedDeep(dec, storeHit(flag), guards)
+	for _, w := range bad {
+		c.Violate(rule, fnName(dec)+"#finishedRecvAAD-store", "finishedRecvAAD is set on a path that has not passed a nil-error Open", w.In.Pos(), c.describePath(w.Path)...)
+	}
+	if len(bad) == 0 && n > 0 {
+		c.Ok(rule, fnName(dec)+"#finishedRecvAAD-store", "every store (here or in a helper) lies behind a nil-error Open", dec.Pos())
 	}
 	c.MinCount(rule, "stores to finishedRecvAAD in decryptDataWithAAD", n, 1)
 }
@@ -576,28 +706,44 @@ func c19r5(c *Ctx) {
 		return
 	}
 	nilE, _ := errEdges(send)
-	cuts := newCuts().AddEdges(nilE...)
-	n := 0
-	allInstrs(send, func(_ *ssa.BasicBlock, _ int, in ssa.Instruction) {
-		what := ""
+	isStep := func(in ssa.Instruction) bool {
 		switch x := in.(type) {
 		case *ssa.Call:
 			if calleeFn(x) == enc {
-				what = "encryptDataWithAAD"
-			} else if x.Call.IsInvoke() && x.Call.Method.Name() == "Write" && readsField(x.Call.Value, digest) {
-				what = "sendDigest.Write"
+				return true
 			}
+			return x.Call.IsInvoke() && x.Call.Method.Name() == "Write" && readsField(x.Call.Value, digest)
 		case *ssa.Store:
-			if fa, ok := x.Addr.(*ssa.FieldAddr); ok && fieldOfAddr(fa) == written {
-				what = "sendDigestWritten="
+			fa, ok := x.Addr.(*ssa.FieldAddr)
+			return ok && fieldOfAddr(fa) == written
+		}
+		return false
+	}
+	guards := func(f *ssa.Function) []Edge {
+		if f == send {
+			return nilE
+		}
+		return nil
+	}
+	// count the steps wherever they live (send itself or a helper it calls)
+	n := 0
+	for f := range c.reachableFns([]*ssa.Function{send}, false) {
+		if f == enc || fnPkg(f) != fnPkg(send) {
+			continue
+		}
+		allInstrs(f, func(_ *ssa.BasicBlock, _ int, in ssa.Instruction) {
+			if isStep(in) {
+				n++
 			}
-		}
-		if what == "" {
-			return
-		}
-		n++
-		c.mustPassInstr(rule, fnName(send)+"#"+what+"<-ctx-live", send, in, cuts, "the ctx.Err() == nil edge")
-	})
+		})
+	}
+	bad := c.unguardedDeep(send, isStep, guards)
+	for _, w := range bad {
+		c.Violate(rule, fnName(send)+"#state-change<-ctx-live", "a state-changing step of a send (nonce spent / digest fed) can run although the context is already done", w.In.Pos(), c.describePath(w.Path)...)
+	}
+	if len(bad) == 0 {
+		c.Ok(rule, fnName(send)+"#state-change<-ctx-live", "every state-changing step of a send lies behind the ctx.Err() == nil edge", send.Pos())
+	}
 	c.MinCount(rule, "state-changing steps of a send", n, 4)
 	// writeWithContext: entry edge with ctx.Err() != nil must close the connection before returning
 	_, nonNil := errEdges(wwc)
